@@ -377,6 +377,7 @@ func (fr *FileReader) readerForOffset(ctx context.Context, off int64) (io.ReadCl
 	if err != nil {
 		return nil, err
 	}
+	partRemain := int64(p0.Size) - offRemain // bytes of this part at and after off
 	offRemain += int64(p0.Offset)
 	if offRemain > 0 {
 		newPos, err := rsc.Seek(offRemain, io.SeekStart)
@@ -391,7 +392,7 @@ func (fr *FileReader) readerForOffset(ctx context.Context, off int64) (io.ReadCl
 		io.Reader
 		io.Closer
 	}{
-		io.LimitReader(rsc, int64(p0.Size)),
+		io.LimitReader(rsc, partRemain),
 		rsc,
 	}, nil
 }
